@@ -154,6 +154,7 @@ def finish(rep, t0, configs, checker_cmd, seed=0):
                 'rustc nightly MIR construction and type checking', 'documented behaviour of std/core',
                 'transcription of the CNB spec into rule tables', 'effect vocabulary of the rule library'],
             'known_findings': [known_keys[i.key]['what'] for i in listed],
+            'failing_keys': [i.key for i in bad],
             'exhaustive': False,
         },
         'assumptions': rep.assumptions or [
